@@ -12,8 +12,11 @@
                                     `dist sqrt` = sqrt (dx*dx + dy*dy), coordinate differences first
                                     (`sqrt` is a parameter; since /repo fix 6c9bac1 this is the code's own
                                     operation order — sklearn's expanded form |x|²-2xy+|y|² is gone)
-  81-85  rotation by R              `rot cp sp`            (`cp = cos(π/4)`, `sp = sin(π/4)` are parameters)
-  86-94  augmented matrix D         `augEntry`, `augMatrix` (`none` = `np.inf`)
+  84, 88 (S[:, 1] - S[:, 0]) / np.sqrt(2)
+                                    `diagc sqrt` = (d - b) / sqrt 2, from the coordinate difference (the `/repo`
+                                    fix of the diagonal cost: the rotation by pi/4, `d*cos - b*sin`, is gone, and
+                                    with it the model's parameters `cp`, `sp`)
+  82-89  augmented matrix D         `augEntry`, `augMatrix` (`none` = `np.inf`)
   97     linear_sum_assignment(D)   the parameter `lsa`    (contract: a minimum-cost perfect assignment
                                                             whenever one with finite cost exists)
   98     np.sum(D[matchi, matchj])  `lookup`, `optSum`
@@ -61,7 +64,7 @@ def lift (s : List (α × α)) : Dgm α := s.map fun p => (p.1, some p.2)
 /-- `D[i, j]`; outer `none` = index out of range -/
 def lookup (D : Mat α) (i j : Nat) : Option (Option α) := D[i]? >>= fun r => r[j]?
 
-variable [Add α] [Sub α] [Mul α] [Neg α] [Zero α]
+variable [Add α] [Sub α] [Mul α] [Div α] [Zero α] [OfNat α 2]
 
 /-- lines 67-72: an empty side becomes the single point `(0,0)` -/
 def orPlaceholder : List (α × α) → List (α × α)
@@ -72,24 +75,24 @@ def orPlaceholder : List (α × α) → List (α × α)
 def dist (sqrt : α → α) (p q : α × α) : α :=
   sqrt ((p.1 - q.1) * (p.1 - q.1) + (p.2 - q.2) * (p.2 - q.2))
 
-/-- lines 83-85: the row vector `(b, d)` times `R = [[cp, -sp], [sp, cp]]` -/
-def rot (cp sp : α) (p : α × α) : α × α := (p.1 * cp + p.2 * sp, p.1 * (-sp) + p.2 * cp)
+/-- lines 84 / 88: the cost of sending `(b, d)` to the diagonal, `(S[:, 1] - S[:, 0]) / np.sqrt(2)` -/
+def diagc (sqrt : α → α) (p : α × α) : α := (p.2 - p.1) / sqrt 2
 
-/-- lines 86-94: entry `(i, j)` of the `(M+N) × (M+N)` matrix, `M = |S|`, `N = |T|` -/
-def augEntry (sqrt : α → α) (cp sp : α) (S T : List (α × α)) (i j : Nat) : Option α :=
+/-- lines 82-89: entry `(i, j)` of the `(M+N) × (M+N)` matrix, `M = |S|`, `N = |T|` -/
+def augEntry (sqrt : α → α) (S T : List (α × α)) (i j : Nat) : Option α :=
   if hi : i < S.length then
     if hj : j < T.length then some (dist sqrt S[i] T[j])
-    else if j - T.length = i then some (rot cp sp S[i]).2
+    else if j - T.length = i then some (diagc sqrt S[i])
     else none
   else
     if hj : j < T.length then
-      if i - S.length = j then some (rot cp sp T[j]).2
+      if i - S.length = j then some (diagc sqrt T[j])
       else none
     else some 0
 
-def augMatrix (sqrt : α → α) (cp sp : α) (S T : List (α × α)) : Mat α :=
+def augMatrix (sqrt : α → α) (S T : List (α × α)) : Mat α :=
   List.ofFn (n := S.length + T.length) fun i =>
-    List.ofFn (n := S.length + T.length) fun j => augEntry sqrt cp sp S T i.val j.val
+    List.ofFn (n := S.length + T.length) fun j => augEntry sqrt S T i.val j.val
 
 /-- addition with `none` = `+∞` absorbing -/
 def optAdd : Option α → Option α → Option α
@@ -110,15 +113,15 @@ def rowsOf (M N : Nat) (pairs : List (Nat × Nat)) (sel : List (Option α)) :
 def prepared (d : Dgm α) : List (α × α) := orPlaceholder (finitePart d)
 
 /-- the matrix handed to `linear_sum_assignment` -/
-def matrixOf (sqrt : α → α) (cp sp : α) (d1 d2 : Dgm α) : Mat α :=
-  augMatrix sqrt cp sp (prepared d1) (prepared d2)
+def matrixOf (sqrt : α → α) (d1 d2 : Dgm α) : Mat α :=
+  augMatrix sqrt (prepared d1) (prepared d2)
 
 /-- the whole routine; `lsa` returns the list `zip(matchi, matchj)` -/
-def wasserstein (sqrt : α → α) (cp sp : α) (lsa : Mat α → List (Nat × Nat)) (d1 d2 : Dgm α) :
+def wasserstein (sqrt : α → α) (lsa : Mat α → List (Nat × Nat)) (d1 d2 : Dgm α) :
     Except Err (Out α) :=
   let S := prepared d1
   let T := prepared d2
-  let D := augMatrix sqrt cp sp S T
+  let D := augMatrix sqrt S T
   let pairs := lsa D
   match pairs.mapM (fun p => lookup D p.1 p.2) with
   | none => .error .index
